@@ -53,6 +53,27 @@ def _classes(urwid):
         def mouse_event(self, size, event, button, col, row, focus):
             return False
 
+    class EmptyLenItem(Item):
+        """A widget class may define __len__ (every urwid container does): this one reports no children, so it is falsy,
+        yet it renders h rows like any other item.  A list item is present when the walker hands out a widget, whatever
+        the widget's truth value."""
+
+        def __len__(self):
+            return 0
+
+    class FalseItem(Item):
+        def __bool__(self):
+            return False
+
+    def make_item(ident, h, sel, crow, kind=0):
+        """kind 0: plain probe; 1: probe with __len__() == 0; 2: probe with __bool__() False;
+        3: a real, empty urwid.Pile (zero rows, not selectable, falsy because Pile defines __len__)"""
+        if kind == 3:
+            it = urwid.Pile([])
+            it.ident, it.h, it._sel, it.crow = ident, 0, False, -1
+            return it
+        return (Item, EmptyLenItem, FalseItem)[kind](ident, h, sel, crow)
+
     class PlainWalker(urwid.ListWalker):
         """A hand-written walker over a python list (positions = indices)."""
 
@@ -86,19 +107,19 @@ def _classes(urwid):
             # optional in the ListWalker API, but ListBox's home/end keys call it unconditionally
             return range(len(self.items) - 1, -1, -1) if reverse else range(len(self.items))
 
-    return Item, PlainWalker
+    return make_item, PlainWalker
 
 
 def run_history(spec, ops):
-    """spec: {'items': [[h, selectable, crow]...], 'w':, 'h':, 'walker': 'focus'|'simple'|'plain'}; ops as tuples."""
+    """spec: {'items': [[h, selectable, crow(, kind)]...], 'w':, 'h':, 'walker': 'focus'|'simple'|'plain'}; ops as tuples."""
     import urwid
 
     urwid.set_encoding("utf-8")
-    Item, PlainWalker = _classes(urwid)
+    make_item, PlainWalker = _classes(urwid)
     nextid = [0]
 
-    def mk(h, sel, crow):
-        it = Item(nextid[0], h, bool(sel), crow)
+    def mk(h, sel, crow, kind=0):
+        it = make_item(nextid[0], h, bool(sel), crow, kind)
         nextid[0] += 1
         return it
 
@@ -116,12 +137,15 @@ def run_history(spec, ops):
     state = {"w": spec["w"], "h": spec["h"]}
     ev = []
 
-    def observe(op, exc="", click=None):
-        e = {"op": list(op), "exc": exc, "view": [], "heights": [it.h for it in lst], "focus": -1, "crow": -1, "h": state["h"], "click": []}
+    def observe(op, exc="", click=None, cc=None):
+        e = {"op": list(op), "exc": exc, "view": [], "heights": [it.h for it in lst], "focus": -1, "crow": -1, "h": state["h"], "click": [],
+             "cc": cc or [], "falsy": [k for k, it in enumerate(lst) if not it], "tag": tag[0],
+             # for the vacuity counters only: was a focus / alignment request still waiting when this rendering was asked for
+             "pend": int(bool(lb.set_focus_pending or lb.set_focus_valign_pending))}
+        tag[0] = ""
         if not exc:
             try:
                 canv = lb.render((state["w"], state["h"]), True)
-                idmap = {it.ident: k for k, it in enumerate(lst)}
                 for line in canv.text:
                     t = line.decode()
                     if t[:1].isalpha() and t[1:2].isdigit():
@@ -132,9 +156,14 @@ def run_history(spec, ops):
                         e["view"].append([-1, -1])
                 if canv.rows() != state["h"] or canv.cols() != state["w"]:
                     e["exc"] = "wrong_size"
-                f = lb.focus_position if len(lst) else -1
+                try:
+                    f = lb.focus_position if len(lst) else -1
+                except IndexError:
+                    # "No focus_position, ListBox is empty" although the list has items: the rendering did not raise, the walker
+                    # hands out no focus; recorded as 'no focus' and judged by the clause focus_is_an_item_of_the_list
+                    f = -1
                 e["focus"] = f if f is not None else -1
-                if e["focus"] >= 0:
+                if 0 <= e["focus"] < len(lst):
                     it = lst[e["focus"]]
                     if it._sel and 0 <= it.crow < it.h:
                         e["crow"] = it.crow
@@ -153,6 +182,7 @@ def run_history(spec, ops):
 
     opexc = []
     stale = False
+    tag = [""]
     last = observe(("init",))
     for op in ops:
         # ("lazy", op): the operation is carried out but the list box is NOT rendered before the next one, as in an application
@@ -171,6 +201,7 @@ def run_history(spec, ops):
         size = (state["w"], state["h"])
         exc = ""
         click = None
+        cc = None
         try:
             if op[0] == "key":
                 lb.keypress(size, op[1])
@@ -201,8 +232,19 @@ def run_history(spec, ops):
                 state["h"] = op[1]
             elif op[0] == "w":
                 state["w"] = op[1]
+            elif op[0] == "coords":
+                # the parent widget asks where the cursor is (Widget protocol, part of drawing the list box): whatever is
+                # still pending is completed here instead of in render; the answer must agree with the rendering that follows
+                try:
+                    if lb.set_focus_pending or lb.set_focus_valign_pending:
+                        tag[0] = "coords_with_request_pending"
+                    r = lb.get_cursor_coords(size)
+                    cc = [-1, -1] if r is None else [int(r[0]), int(r[1])]
+                except Exception as ex:  # noqa: BLE001
+                    opexc.append({"op": list(op), "exc": type(ex).__name__, "msg": str(ex)[:80], "h": state["h"]})
+                    exc = type(ex).__name__
             elif op[0] == "insert":
-                it = mk(op[2], op[3], op[4])
+                it = mk(*op[2:])
                 lst.insert(min(op[1], len(lst)), it)
                 if spec["walker"] == "plain":
                     walker._modified()
@@ -212,9 +254,30 @@ def run_history(spec, ops):
                     if spec["walker"] == "plain":
                         walker.focus = min(walker.focus, max(0, len(lst) - 1))
                         walker._modified()
+            elif op[0] in ("delneg", "pop", "remove"):
+                # the other ways a python list loses one item: a negative index (del w[-k], w.pop(-k)), pop() without an index,
+                # remove(item).  An exception of the walker's list operation itself is recorded (DIVERGENCE, not a C07 matter);
+                # the list box is rendered afterwards all the same and must show a proper window of what the list now holds
+                if len(lst):
+                    try:
+                        if lb.focus_position == len(lst) - 1 and (op[0] == "delneg" and (op[1] - 1) % len(lst) == 0 or op[0] == "pop" and (op[1] is None or op[1] % (2 * len(lst)) == 2 * len(lst) - 1)):
+                            tag[0] = "focused_last_item_removed_by_negative_index"
+                    except Exception:  # noqa: BLE001
+                        pass
+                    try:
+                        if op[0] == "delneg":
+                            del lst[-(1 + (op[1] - 1) % len(lst))]
+                        elif op[0] == "pop":
+                            lst.pop() if op[1] is None else lst.pop(-len(lst) + (op[1] + len(lst)) % (2 * len(lst)))
+                        else:
+                            lst.remove(lst[op[1] % len(lst)])
+                    finally:
+                        if spec["walker"] == "plain":
+                            walker.focus = min(walker.focus, max(0, len(lst) - 1))
+                            walker._modified()
             elif op[0] == "replace":
                 if len(lst):
-                    lst[op[1] % len(lst)] = mk(op[2], op[3], op[4])
+                    lst[op[1] % len(lst)] = mk(*op[2:])
                     if spec["walker"] == "plain":
                         walker._modified()
             elif op[0] == "clear":
@@ -236,37 +299,50 @@ def run_history(spec, ops):
         except Exception as ex:  # noqa: BLE001
             # the property speaks of rendering: an exception out of keypress / mouse_event / set_focus is recorded and
             # reported as DIVERGENCE; the view rendered afterwards is still judged
-            opexc.append({"op": list(op), "exc": type(ex).__name__, "msg": str(ex)[:80]})
+            opexc.append({"op": list(op), "exc": type(ex).__name__, "msg": str(ex)[:80], "h": state["h"]})
             click = None
-            if type(ex).__name__ == "ListBoxError" and op[0] in ("key", "press", "wheel"):
+            if type(ex).__name__ == "ListBoxError" and op[0] in ("key", "press", "wheel") and state["h"] > 0:
                 # the list box's own view calculation (the one render() uses) gave up while handling input: judged like a
-                # rendering failure; exceptions of other kinds / from other calls stay DIVERGENCE
+                # rendering failure; exceptions of other kinds / from other calls stay DIVERGENCE (also input handed to a box
+                # of zero rows: the statement speaks of rendering such a box, which is judged next)
                 exc = "ListBoxError"
         if lazy and not exc:
             continue
-        last = observe(op, exc, click)
+        last = observe(op, exc, click, cc)
         if last["exc"]:
             break
     return {"spec": spec, "ops": [list(o) for o in ops], "ev": ev, "opexc": opexc}
 
 
+def random_item(rng):
+    """[h, selectable, crow, kind]: about one item in eight is a falsy widget (kinds 1..3 of make_item)"""
+    h = rng.choice(HEIGHTS)
+    sel = rng.random() < 0.6
+    crow = rng.randrange(h) if (sel and h and rng.random() < 0.5) else -1
+    kind = rng.choice([1, 2, 3]) if rng.random() < 0.13 else 0
+    if kind == 3:
+        h, sel, crow = 0, False, -1
+    return [h, 1 if sel else 0, crow, kind]
+
+
+def random_height(rng):
+    return 0 if rng.random() < 0.12 else rng.randint(1, 6)
+
+
 def random_spec(rng, maxitems=6):
     n = rng.randint(0, maxitems)
-    items = []
-    for _ in range(n):
-        h = rng.choice(HEIGHTS)
-        sel = rng.random() < 0.6
-        crow = rng.randrange(h) if (sel and h and rng.random() < 0.5) else -1
-        items.append([h, 1 if sel else 0, crow])
-    return {"items": items, "w": rng.randint(2, 5), "h": rng.randint(1, 6), "walker": rng.choice(["focus", "simple", "plain"])}
+    items = [random_item(rng) for _ in range(n)]
+    return {"items": items, "w": rng.randint(2, 5), "h": random_height(rng), "walker": rng.choice(["focus", "simple", "plain"])}
 
 
 def random_ops(rng, n):
     ops = []
     for _ in range(n):
         r = rng.random()
-        if r < 0.4:
+        if r < 0.37:
             ops.append(("key", rng.choice(KEYS)))
+        elif r < 0.4:
+            ops.append(("coords",))
         elif r < 0.5:
             ops.append(("press", rng.randint(0, 1), rng.randint(0, 5)))
         elif r < 0.55:
@@ -278,24 +354,26 @@ def random_ops(rng, n):
         elif r < 0.7:
             ops.append(("valign", rng.choice(["top", "middle", "bottom", ["relative", 30]])))
         elif r < 0.78:
-            ops.append(("h", rng.randint(1, 6)))
+            ops.append(("h", random_height(rng)))
+            if rng.random() < 0.3:
+                ops.append(("coords",))
         elif r < 0.86:
-            h = rng.choice(HEIGHTS)
-            sel = rng.random() < 0.6
-            ops.append(("insert", rng.randint(0, 6), h, 1 if sel else 0, rng.randrange(h) if (sel and h and rng.random() < 0.5) else -1))
-        elif r < 0.94:
+            ops.append(("insert", rng.randint(0, 6), *random_item(rng)))
+        elif r < 0.90:
             ops.append(("delete", rng.randint(0, 6)))
+        elif r < 0.94:
+            ops.append(rng.choice([("delneg", rng.randint(1, 3)), ("pop", None), ("pop", rng.randint(-3, 3)), ("remove", rng.randint(0, 6))]))
         elif r < 0.98:
             h = rng.choice(HEIGHTS)
-            ops.append(("replace", rng.randint(0, 6), h, 1, -1))
+            ops.append(("replace", rng.randint(0, 6), h, 1, -1, rng.choice([0, 0, 0, 1, 2])))
         elif r < 0.985:
             ops.append(("clear",))
         else:
             def few():
                 out = []
                 for _ in range(rng.randint(1, 3)):
-                    h = rng.choice(HEIGHTS)
-                    out.append([h, 1 if rng.random() < 0.6 else 0, -1])
+                    it = random_item(rng)
+                    out.append([it[0], it[1], -1, it[3]])
                 return out
             ops.append((rng.choice(["iadd", "iadd", "setall"]), few()))
     # several operations between two renderings
@@ -322,14 +400,13 @@ def _handle(chk, traces, res):
 def run(chk):
     quick = chk.tier == "quick"
     rng = chk.rng
-    r = tlc.mc("ListBox", MC_CFG.format(n=3, h=3, d=4 if quick else 5, bad=""), timeout=2400, workers=8)
-    chk.add_mc("MC_ListBox_contract_satisfiable", r)
-    if not r.ok:
-        chk.reject("C07.model." + str(r.violated), {"model": "ListBox"}, {"tlc_trace": r.trace[-5:]})
-    rb = tlc.mc("ListBox", MC_CFG.format(n=3, h=3, d=3, bad="noRefill"), timeout=900, workers=8)
-    chk.cov["contract_refutes_no_refill"] = rb.violated == "ContractSatisfied"
-    if rb.violated != "ContractSatisfied":
-        raise tlc.MachineryError("ListBox.tla no longer refutes a placement that leaves a gap after deletions")
+    # the model runs overlap the driving of the real widgets below (independent TLC runs)
+    import concurrent.futures as cf
+
+    pool = cf.ThreadPoolExecutor(4)
+    f_ok = pool.submit(tlc.mc, "ListBox", MC_CFG.format(n=3, h=3, d=4 if quick else 5, bad=""), timeout=2400, workers=4 if quick else 6)
+    f_bad = {bad: pool.submit(tlc.mc, "ListBox", MC_CFG.format(n=3, h=3, d=3, bad=bad), timeout=900, workers=2)
+             for bad in ("noRefill", "negIndexSlice", "endAtEmpty")}
     traces = []
     # ---- exhaustive: small lists x box heights x every single key / press from the initial state and after 'end' ----
     import itertools
@@ -379,17 +456,81 @@ def run(chk):
                     for act in [("key", k) for k in ("up", "down", "page up", "page down")] + [("wheel", 4), ("wheel", 5)]:
                         spec = {"items": [[1, 1, -1], [H, 1, crow], [1, 0, -1], [2, 1, 0]], "w": 3, "h": h, "walker": "focus"}
                         traces.append(run_history(spec, [("set_focus", 1, None), ("shift", off), act, act]))
+    # ---- directed: a box of ZERO rows (collapsed pane) at every stage: from the start, or after a first rendering; one or two
+    # requests (set_focus with any coming_from, set_focus_valign, home / end, a raw position) still pending when the box is
+    # rendered / asked for its cursor with zero rows; then the rows come back ----
+    reqs = [("set_focus", 2, None), ("set_focus", 1, "above"), ("set_focus", 3, "below"), ("valign", "middle"), ("valign", "bottom"),
+            ("valign", ["relative", 30]), ("key", "end"), ("key", "home"), ("set_focus_raw", 2, 1), ("set_focus_raw", 1, 0)]
+    mixed = [[1, 1, -1], [2, 1, 1], [1, 0, -1], [3, 1, 0], [1, 1, -1]]
+    for walker in ("focus", "simple", "plain"):
+        for items in (mixed, mixed[:2], []):
+            for h0 in (0, 3):
+                for r1 in reqs:
+                    for r2 in (None, *reqs[:6:2]):
+                        for asked in ("render", "coords", "lazycoords"):
+                            if quick and r2 is not None and (asked == "lazycoords" or walker == "simple"):
+                                continue
+                            pre = [] if r1[0] != "key" or h0 else [("lazy", ("h", 2))]      # the keys are pressed in a box that has rows
+                            ops = [*pre, ("lazy", r1)] + ([("lazy", r2)] if r2 else [])
+                            zero = {"render": [("h", 0)], "coords": [("lazy", ("h", 0)), ("coords",)],
+                                    "lazycoords": [("lazy", ("h", 0)), ("lazy", ("coords",)), ("lazy", ("w", 4)), ("coords",)]}[asked]
+                            spec = {"items": items, "w": 3, "h": h0, "walker": walker}
+                            traces.append(run_history(spec, [*ops, *zero, ("h", 3), ("coords",), ("key", "down")]))
+    # ---- directed: every way a python list loses ONE item (del w[i], del w[-k], pop(), pop(i), pop(-k), remove(x)) with the focus on
+    # every position (also requested but not rendered yet), the last one in particular ----
+    for walker in ("focus", "simple", "plain"):
+        for n0 in (1, 2, 3, 4):
+            for f in range(n0):
+                rm = [("delete", i) for i in range(n0)] + [("delneg", k) for k in range(1, n0 + 1)] + [("pop", None)] + \
+                     [("pop", i) for i in range(-n0, n0)] + [("remove", i) for i in range(n0)]
+                for op in rm:
+                    for lazyfocus in (False, True):
+                        if lazyfocus and quick and op[0] in ("delete", "remove"):
+                            continue
+                        base = {"items": [[1, 1, -1], [2, 0, -1], [1, 1, 0], [2, 1, 1]][:n0], "w": 3, "h": 3, "walker": walker}
+                        sf = ("set_focus", f, None)
+                        traces.append(run_history(base, [("lazy", sf) if lazyfocus else sf, op, ("key", "up"), ("coords",), op, ("key", "down")]))
+    # ---- directed: a FALSY widget as a list item (a class may define __len__ / __bool__; every empty urwid container is falsy) at
+    # every position, the focus at every other one, in boxes that then grow past the whole list and lose their tail ----
+    falsy = [[0, 0, -1, 3], [0, 0, -1, 1], [1, 0, -1, 1], [2, 1, -1, 2], [1, 1, 0, 1]]
+    for walker in ("focus", "plain", "simple"):
+        for n0 in ((3,) if walker == "simple" and quick else (3, 5)):
+            for z in range(n0):
+                for zi in falsy:
+                    for f in range(n0):
+                        for cf, va in ((None, None), ("below", None), ("above", "bottom"), (None, "top")):
+                            if quick and n0 == 5 and cf is None and va is None and walker != "focus":
+                                continue
+                            items = [[1 + (k % 2), k % 2, -1, 0] for k in range(n0)]
+                            items[z] = zi
+                            spec = {"items": items, "w": 3, "h": 2, "walker": walker}
+                            ops = [("set_focus", f, cf)] + ([("valign", va)] if va else []) + \
+                                  [("h", 4), ("h", 9), ("set_focus", f, "below"), ("delete", n0 - 1), ("h", 3), ("key", "up"), ("key", "down")]
+                            traces.append(run_history(spec, ops))
     n_rand = 2500 if quick else 120000
     for _ in range(n_rand):
         traces.append(run_history(random_spec(rng), random_ops(rng, rng.randint(3, 14))))
-    res = tlc.validate("ListBoxTrace", traces, batch_events=12000, timeout=2400)
+    r = f_ok.result()
+    chk.add_mc("MC_ListBox_contract_satisfiable", r)
+    if not r.ok:
+        chk.reject("C07.model." + str(r.violated), {"model": "ListBox"}, {"tlc_trace": r.trace[-5:]})
+    for bad, what in (("noRefill", "a placement that leaves a gap after deletions"),
+                      ("negIndexSlice", "a removal through index -1 that keeps the focus index (focus past the end of the list)"),
+                      ("endAtEmpty", "a placement that takes a zero-row item above the focus for the top of the list")):
+        rb = f_bad[bad].result()
+        chk.cov["contract_refutes_" + bad] = rb.violated == "ContractSatisfied"
+        if rb.violated != "ContractSatisfied":
+            raise tlc.MachineryError("ListBox.tla no longer refutes " + what)
+    chk.cov["contract_refutes_no_refill"] = chk.cov["contract_refutes_noRefill"]
+    pool.shutdown()
+    res = tlc.validate("ListBoxTrace", traces, batch_events=12000, timeout=2400, jobs=4 if quick else 6)
     chk.add_tv("TV_ListBoxTrace", res)
     _handle(chk, traces, res)
     kinds = {}
     nontriv = set()
     for t in traces:
         for x in t["opexc"]:
-            chk.divergence(f"{x['op'][0]}_raised_{x['exc']}", {"spec": t["spec"], "ops": t["ops"], "at": x})
+            chk.divergence(f"{x['op'][0]}_raised_{x['exc']}" + ("_given_zero_rows" if x["h"] == 0 else ""), {"spec": t["spec"], "ops": t["ops"], "at": x})
         for e in t["ev"]:
             k = f"{t['spec']['walker']}.{e['op'][0]}"
             kinds[k] = kinds.get(k, 0) + 1
@@ -399,19 +540,42 @@ def run(chk):
                 kinds["cursor_item_focused"] = kinds.get("cursor_item_focused", 0) + 1
             if e["view"] and e["view"][0][1] > 0:
                 kinds["top_item_partially_shown"] = kinds.get("top_item_partially_shown", 0) + 1
+            extra = []
+            if e["h"] == 0 and e["pend"] and not e["exc"]:
+                extra.append("zero_rows_rendered_with_request_pending")
+            if e["tag"] == "coords_with_request_pending":
+                extra.append("coords_asked_with_request_pending" + ("_and_zero_rows" if e["h"] == 0 else ""))
+            if e["cc"] and e["cc"][1] >= 0:
+                extra.append("coords_answer_checked_against_rendering")
+            if e["tag"] == "focused_last_item_removed_by_negative_index":
+                extra.append(t["spec"]["walker"] + ".focused_last_item_removed_by_negative_index")
+            shown = [x[0] for x in e["view"] if x[0] >= 0]
+            if shown and any(min(shown) <= k <= max(shown) and k != e["focus"] for k in e["falsy"]):
+                extra.append("falsy_item_inside_window")
+                if len(shown) < len(e["view"]) or shown[0] == 0:
+                    extra.append("falsy_item_inside_window_that_reaches_an_end_of_the_list")
+            for k in extra:
+                kinds[k] = kinds.get(k, 0) + 1
             nontriv.add(json.dumps([e["heights"], e["view"], e["focus"]]))
     chk.cov["clause_counts"] = kinds
     chk.cov["distinct_nontrivial"] = len(nontriv)
     chk.cov["rule"] = ("histories of keys / presses / wheel / set_focus / set_focus_valign / resizes / walker insert-delete-replace on real ListBox widgets "
-                       "over row-labelled flow items (heights 0,1,2,3,7; selectable or not; cursor rows) with SimpleFocusListWalker, SimpleListWalker "
+                       "(also by negative index, pop(), remove()), get_cursor_coords, boxes of zero rows "
+                       "over row-labelled flow items (heights 0,1,2,3,7; selectable or not; cursor rows; falsy widgets: __len__ 0, __bool__ False, a real empty Pile) with SimpleFocusListWalker, SimpleListWalker "
                        "and a hand-written walker; distinct = distinct (heights, view, focus) observed")
-    for v in ("press_on_selectable", "cursor_item_focused", "top_item_partially_shown", "plain.delete", "focus.insert"):
+    for v in ("press_on_selectable", "cursor_item_focused", "top_item_partially_shown", "plain.delete", "focus.insert",
+              "zero_rows_rendered_with_request_pending", "coords_asked_with_request_pending", "coords_asked_with_request_pending_and_zero_rows",
+              "coords_answer_checked_against_rendering", "focus.focused_last_item_removed_by_negative_index",
+              "simple.focused_last_item_removed_by_negative_index", "plain.focused_last_item_removed_by_negative_index",
+              "falsy_item_inside_window", "falsy_item_inside_window_that_reaches_an_end_of_the_list",
+              "focus.pop", "focus.remove", "focus.delneg", "focus.coords"):
         if not kinds.get(v):
             chk.vacuity.append("driver." + v)
     chk.sample({"spec": traces[-1]["spec"], "ops": traces[-1]["ops"], "first_views": [e["view"] for e in traces[-1]["ev"][:3]]})
     chk.cov["trusted_base"] = ["TLC", "row-labelled Item widget and canvas projection in vf/props/c07.py"]
     chk.assumptions += ["wrap_around walkers are not driven (contiguity is ill-defined when the list wraps)",
-                        "items report their own rows(); heights change only through list edits"]
+                        "items report their own rows(); heights change only through list edits",
+                        "input handed to a box of zero rows (keypress / mouse_event with maxrow 0) may raise: recorded as DIVERGENCE, the statement speaks of rendering; the rendering that follows is judged"]
 
 
 def replay(chk, path):
